@@ -518,7 +518,13 @@ func (a *Act) unop(x *ssa.UnOp) Val {
 		if _, isAlloc := x.X.(*ssa.Alloc); v.Loc == nil && !isAlloc {
 			a.safe("nil", exprText(a.fn, x.X), app("not", app("=", v.Term, "0")), "nil dereference", x.Pos())
 		}
-		return a.loadLoc(a.cur, a.objLoc(v))
+		lv := a.loadLoc(a.cur, a.objLoc(v))
+		if g, isG := x.X.(*ssa.Global); isG && g.Pkg != nil && !strings.HasPrefix(g.Pkg.Pkg.Path(), "github.com/crillab/gophersat") && lv.Sort == SortInt && types.IsInterface(g.Type().(*types.Pointer).Elem()) {
+			// sentinel error values of the standard library (io.EOF, ...) are non-nil and never reassigned
+			a.vc.assume("true", not(app("=", lv.Term, "0")))
+			a.vc.assumed["sentinel error variables of external packages are non-nil and never reassigned: "+g.Pkg.Pkg.Path()+"."+g.Name()] = true
+		}
+		return lv
 	case token.NOT:
 		return Val{Sort: SortBool, T: t, Term: a.vc.define(x.Name(), SortBool, not(v.Term))}
 	case token.SUB:
